@@ -7,6 +7,7 @@ from __future__ import annotations
 import json
 import os
 import random
+import re
 import select
 import shutil
 import tempfile
@@ -60,6 +61,8 @@ class OpBox(object):
             p = self.tdirs['t1']
             os.makedirs(os.path.join(p, 'files'), mode=0o700)
             os.makedirs(os.path.join(p, 'info'), mode=0o700)
+        pre_info = [(t, self.concrete_slot(sl) if isinstance(sl, str) else sl) for t, sl in pre_info]
+        pre_pay = [(t, self.concrete_slot(sl) if isinstance(sl, str) else sl, k) for t, sl, k in pre_pay]
         for t, slot in pre_info:
             p = self.tdirs[t]
             os.makedirs(os.path.join(p, 'info'), exist_ok=True)
@@ -145,6 +148,18 @@ class OpBox(object):
             out.append(os.path.relpath(p, rootb))
         return out
 
+    def long_name(self):
+        return len(self.name) + len(b'.trashinfo') > 255
+
+    def concrete_slot(self, a):
+        """abstract slot n, n1, n2 ... -> the concrete name trash-put uses for it"""
+        if a == 'n':
+            return self.name
+        suffix = b'_' + a[1:].encode()
+        if self.long_name():
+            return self.name[:len(self.name) - len(suffix) - len(b'.trashinfo')] + suffix
+        return self.name + suffix
+
     # ---- projection into the vocabulary of PutOps.tla ------------------------------------------------------
     def slot_abs(self, slot):
         """concrete slot name -> abstract: n, n1, n2, ... ; anything else keeps a sanitised name"""
@@ -153,6 +168,10 @@ class OpBox(object):
         if slot.startswith(self.name + b'_') and slot[len(self.name) + 1:].isdigit():
             k = int(slot[len(self.name) + 1:])
             return 'n%d' % k
+        # a name too long for its .trashinfo is shortened so that <shortened>_<k>.trashinfo has the length of the name
+        m = re.match(br'^(.*)_(\d+)$', slot, re.S)
+        if m and self.long_name() and len(slot) + len(b'.trashinfo') == len(self.name) and self.name.startswith(m.group(1)):
+            return 'n%d' % int(m.group(2))
         return 'x' + slot.decode('latin-1').encode('ascii', 'backslashreplace').decode().replace('"', '_').replace('\\', '_')
 
     def project(self, creators=None):
